@@ -1,7 +1,7 @@
 (* SimplifyUnusedExpr preserves the effects of an unused expression statement:
    same trace, same kind of completion, same thrown value *)
 From V Require Import Common.Base C03.Num C03.Tree C03.MiniJS C03.Worlds
-  C03.TreeProofs C03.TreeProofs2 C03.TreeProofs3 C03.TreeProofs4 C03.TreeProofs5 C03.TreeProofs6 C03.TreeProofs7 C03.TreeProofs9.
+  C03.TreeProofs C03.TreeProofs2 C03.TreeProofs3 C03.TreeProofs4 C03.TreeProofs5 C03.TreeProofs6 C03.TreeProofs7 C03.TreeProofs9 C03.TreeProofs10 C03.TreeProofs13.
 
 (* the observable part of a completion: the trace and the thrown value, if any *)
 Definition effects := option (trace * option value).
@@ -913,14 +913,121 @@ Section SU.
       rewrite EEitem_plain by (rewrite E; exact Hn). exact E.
   Qed.
 
-  Lemma su_missing : forall f, su_fuel f ub true EMissing <> UFuel -> su_fuel f ub true EMissing = UNil.
-  Proof. destruct f; cbn; congruence. Qed.
-  Lemma su_spread : forall f v, su_fuel f ub true (ESpread v) <> UFuel -> su_fuel f ub true (ESpread v) = UExpr (ESpread v).
-  Proof. destruct f; cbn; congruence. Qed.
+  Lemma su_missing : forall noOC f, su_fuel f ub noOC EMissing <> UFuel -> su_fuel f ub noOC EMissing = UNil.
+  Proof. intros noOC; destruct f; cbn; congruence. Qed.
+  Lemma su_spread : forall noOC f v, su_fuel f ub noOC (ESpread v) <> UFuel -> su_fuel f ub noOC (ESpread v) = UExpr (ESpread v).
+  Proof. intros noOC; destruct f; cbn; congruence. Qed.
 
   Lemma by_cbr : forall e, flags_ok W e -> can_be_removed ub e = true -> SE e UNil.
   Proof.
     intros e Hf Hc. apply SE_pure. intros tr tr' out Hev. exact (can_be_removed_sound_all W Wok e tr tr' out Hf Hc Hev).
+  Qed.
+
+  (* ---- optional-chain insertion: "a != null && a.b.c" => "a?.b.c" --------------------------- *)
+  Lemma SE_replace : forall E a b, SE E (UExpr a) -> (forall tr, EE a tr <> None -> EE b tr = EE a tr) -> SE E (UExpr b).
+  Proof.
+    intros E a b S H tr Hn. rewrite EU_expr. pose proof (S tr Hn) as S1. rewrite EU_expr in S1.
+    rewrite H; [exact S1 | rewrite S1; exact Hn].
+  Qed.
+
+  Lemma id_eval : forall r c m tr, exists o, ev tr (EId r c m) = Some (tr, o).
+  Proof.
+    intros r c m tr. cbn [eval]. destruct (w_unbound W r); [destruct (w_genv W r)|]; eauto.
+  Qed.
+
+  Lemma ev_looseeq : forall l r tr,
+    ev tr (EBin BLooseEq l r) = bind (ev tr l) (fun tr1 x => bind (ev tr1 r) (fun tr2 y => apply_bin W BLooseEq tr2 x y)).
+  Proof. reflexivity. Qed.
+  Lemma ev_loosene : forall l r tr,
+    ev tr (EBin BLooseNe l r) = neg_outcome (bind (ev tr l) (fun tr1 x => bind (ev tr1 r) (fun tr2 y => apply_bin W BLooseEq tr2 x y))).
+  Proof. reflexivity. Qed.
+
+  (* the value of the guard "a == null" / "null == a" / "a != null" / "null != a" *)
+  Lemma guard_eval : forall bop bl br r c m tr o,
+    (bop = BLooseEq \/ bop = BLooseNe) ->
+    (if is_null br then Some bl else if is_null bl then Some br else None) = Some (EId r c m) ->
+    ev tr (EId r c m) = Some (tr, o) ->
+    ev tr (EBin bop bl br) =
+      match o with
+      | Val a => Some (tr, Val (VBool (match bop with BLooseNe => negb (nullish a) | _ => nullish a end)))
+      | Throw z => Some (tr, Throw z)
+      end.
+  Proof.
+    intros bop bl br r c m tr o Hb Hsel E.
+    destruct (is_null br) eqn:Nr.
+    - inv Hsel. destruct br; try discriminate Nr.
+      destruct Hb as [-> | ->]; [rewrite ev_looseeq | rewrite ev_loosene]; rewrite E; destruct o as [a|z]; cbn [bind neg_outcome]; try reflexivity;
+        change (ev tr ENull) with (Some (tr, Val VNull)); cbn [bind];
+        unfold apply_bin, eff; rewrite (ok_looseeq_null_r W Wok); rewrite app_nil_r; reflexivity.
+    - destruct (is_null bl) eqn:Nl; [|discriminate Hsel]. inv Hsel. destruct bl; try discriminate Nl.
+      destruct Hb as [-> | ->]; [rewrite ev_looseeq | rewrite ev_loosene];
+        change (ev tr ENull) with (Some (tr, Val VNull)); cbn [bind]; rewrite E; destruct o as [a|z]; cbn [bind neg_outcome]; try reflexivity;
+        unfold apply_bin, eff; rewrite (ok_looseeq_null_l W Wok); rewrite app_nil_r; reflexivity.
+  Qed.
+
+  Lemma guard_effects : forall op bop bl br r c r' r'',
+    (binop_eqb bop BLooseNe && binop_eqb op BLogAnd) || (binop_eqb bop BLooseEq && binop_eqb op BLogOr) = true ->
+    (if is_null br then Some bl else if is_null bl then Some br else None) = Some (EId r c false) ->
+    try_insert_optional_chain (EId r c false) r' = Some r'' ->
+    forall tr, EE (EBin op (EBin bop bl br) r') tr <> None -> EE r'' tr = EE (EBin op (EBin bop bl br) r') tr.
+  Proof.
+    intros op bop bl br r c r' r'' Hops Hsel TI tr Hn.
+    destruct (tioc_sound_id W r c false r' r'' TI) as [_ [_ Hsem]]. destruct (Hsem tr) as [Hthrow Hval].
+    destruct (id_eval r c false tr) as [o Eo].
+    assert (Hcases : (bop = BLooseNe /\ op = BLogAnd) \/ (bop = BLooseEq /\ op = BLogOr)).
+    { apply orb_true_iff in Hops. destruct Hops as [H|H]; apply andb_true_iff in H; destruct H as [H1 H2];
+        [left | right]; split; (destruct bop; try discriminate H1; reflexivity) || (destruct op; try discriminate H2; reflexivity). }
+    destruct Hcases as [[-> ->] | [-> ->]].
+    - pose proof (guard_eval BLooseNe bl br r c false tr o (or_intror eq_refl) Hsel Eo) as G.
+      unfold EE in *. cbn [eval] in Hn |- *. cbn [eval] in G. rewrite G in Hn |- *.
+      destruct o as [a|z]; cbn [bind] in Hn |- *.
+      + destruct (Hval a Eo) as [Hnull Hnon]. cbn [truthy] in Hn |- *.
+        destruct (nullish a); cbn [negb] in Hn |- *.
+        * rewrite (Hnull eq_refl). reflexivity.
+        * destruct (ev tr r') as [x|] eqn:Er; [|cbn in Hn; congruence]. rewrite (Hnon eq_refl x eq_refl). reflexivity.
+      + rewrite (Hthrow _ _ Eo). reflexivity.
+    - pose proof (guard_eval BLooseEq bl br r c false tr o (or_introl eq_refl) Hsel Eo) as G.
+      unfold EE in *. cbn [eval] in Hn |- *. cbn [eval] in G. rewrite G in Hn |- *.
+      destruct o as [a|z]; cbn [bind] in Hn |- *.
+      + destruct (Hval a Eo) as [Hnull Hnon]. cbn [truthy] in Hn |- *.
+        destruct (nullish a).
+        * rewrite (Hnull eq_refl). reflexivity.
+        * destruct (ev tr r') as [x|] eqn:Er; [|cbn in Hn; congruence]. rewrite (Hnon eq_refl x eq_refl). reflexivity.
+      + rewrite (Hthrow _ _ Eo). reflexivity.
+  Qed.
+
+  Lemma chain_branch : forall E op l' r' (noOC : bool),
+    SE E (UExpr (EBin op l' r')) ->
+    SE E (let dflt := UExpr (EBin op l' r') in
+          if noOC then dflt
+          else match l' with
+               | EBin bop bl br =>
+                   if (binop_eqb bop BLooseNe && binop_eqb op BLogAnd) || (binop_eqb bop BLooseEq && binop_eqb op BLogOr) then
+                     let test := if is_null br then Some bl else if is_null bl then Some br else None in
+                     match test with
+                     | Some tst =>
+                         match tst with
+                         | EId ref c mustkeep =>
+                             if mustkeep then dflt
+                             else match try_insert_optional_chain tst r' with
+                                  | Some r'' => UExpr r''
+                                  | None => dflt
+                                  end
+                         | _ => dflt
+                         end
+                     | None => dflt
+                     end
+                   else dflt
+               | _ => dflt
+               end).
+  Proof.
+    intros E op l' r' noOC H. cbv zeta. destruct noOC; [exact H|].
+    destruct l'; try exact H.
+    destruct (_ || _) eqn:Hops; [|exact H].
+    destruct (if is_null l'2 then Some l'1 else if is_null l'1 then Some l'2 else None) as [tst|] eqn:Hsel; [|exact H].
+    destruct tst; try exact H. destruct mustkeep; [exact H|].
+    destruct (try_insert_optional_chain _ r') as [r''|] eqn:TI; [|exact H].
+    eapply SE_replace; [exact H|]. intros tr Hn. eapply guard_effects; eauto.
   Qed.
 
   (* arguments that can all be removed and evaluate: no effects *)
@@ -937,10 +1044,10 @@ Section SU.
     apply IHl. intros y Hy. apply H. right. exact Hy.
   Qed.
 
-  Theorem su_sound_fuel : forall f e, flags_ok W e -> no_bad W e ->
-    su_fuel f ub true e <> UFuel -> SE e (su_fuel f ub true e).
+  Theorem su_sound_fuel : forall noOC f e, flags_ok W e -> no_bad W e ->
+    su_fuel f ub noOC e <> UFuel -> SE e (su_fuel f ub noOC e).
   Proof.
-    induction f as [|f IH]; intros e Hfl Hnb Hf; [cbn in Hf; congruence|].
+    intros noOC. induction f as [|f IH]; intros e Hfl Hnb Hf; [cbn in Hf; congruence|].
     destruct e; cbn [su_fuel] in Hf |- *; try (apply by_cbr; [assumption|reflexivity]); try apply SE_refl.
     - (* EId *)
       destruct mustkeep; [apply SE_refl|].
@@ -952,7 +1059,7 @@ Section SU.
       destruct pure; [|apply SE_refl].
       cbn [no_bad] in Hnb. destruct Hnb as [Hdef [Hnt Hna]].
       pose proof Hfl as Hfl0. cbn [flags_ok] in Hfl. destruct Hfl as [Hpc [Hft Hfa]].
-      set (g := fun x => match x with ESpread _ => UExpr (EArray [x]) | _ => su_fuel f ub true x end).
+      set (g := fun x => match x with ESpread _ => UExpr (EArray [x]) | _ => su_fuel f ub noOC x end).
       assert (Hitem : forall x, In x args -> g x <> UFuel -> item_se x (g x)).
       { intros x Hin Hgx. pose proof (flags_all W _ Hfa x Hin) as Hfx. pose proof (no_bad_all _ Hna x Hin) as Hnx.
         destruct x; try (apply item_se_of_SE; [reflexivity|]; apply IH; assumption).
@@ -979,7 +1086,7 @@ Section SU.
       destruct pure; [|apply SE_refl].
       cbn [no_bad] in Hnb. destruct Hnb as [Hnt Hna].
       cbn [flags_ok] in Hfl. destruct Hfl as [Hpc [Hft Hfa]].
-      set (g := fun x => match x with ESpread _ => UExpr (EArray [x]) | _ => su_fuel f ub true x end).
+      set (g := fun x => match x with ESpread _ => UExpr (EArray [x]) | _ => su_fuel f ub noOC x end).
       change (SE (ENew e args true) (items_go g args UNil)). change (items_go g args UNil <> UFuel) in Hf.
       intros tr Hn. rewrite (EE_pure_new _ _ _ (Hpc eq_refl)) in Hn |- *.
       rewrite fold_items; [reflexivity| |exact Hf|exact Hn].
@@ -1022,48 +1129,48 @@ Section SU.
         destruct (join_u_fuel _ _ Hf) as [F1 F2].
         eapply SE_two; try eassumption; [intros; apply EE_strict; auto | apply IH; assumption | apply IH; assumption].
       + (* BNullish *)
-        destruct (su_fuel f ub true e2) as [|r'|] eqn:Hr; [| |congruence].
+        destruct (su_fuel f ub noOC e2) as [|r'|] eqn:Hr; [| |congruence].
         * apply logic_nil; [apply sc_nullish | rewrite <- Hr; apply IH; try assumption; congruence | apply IH; assumption].
-        * apply nullish_expr. rewrite <- Hr. apply IH; try assumption; congruence.
+        * apply chain_branch. apply nullish_expr. rewrite <- Hr. apply IH; try assumption; congruence.
       + (* BLogOr *)
-        destruct (su_fuel f ub true e2) as [|r'|] eqn:Hr; [| |congruence].
+        destruct (su_fuel f ub noOC e2) as [|r'|] eqn:Hr; [| |congruence].
         * apply logic_nil; [apply sc_or | rewrite <- Hr; apply IH; try assumption; congruence |].
           eapply SE_of_ST; [intros tr res Hev; exact (simplify_boolean_sound_all W Wok e1 tr res Hf1 Hev)|].
           apply IH; [apply simplify_boolean_flags; assumption | apply no_bad_sb; assumption | assumption].
-        * apply or_expr; [intros tr res Hev; exact (simplify_boolean_sound_all W Wok e1 tr res Hf1 Hev)|].
+        * apply chain_branch. apply or_expr; [intros tr res Hev; exact (simplify_boolean_sound_all W Wok e1 tr res Hf1 Hev)|].
           rewrite <- Hr. apply IH; try assumption; congruence.
       + (* BLogAnd *)
-        destruct (su_fuel f ub true e2) as [|r'|] eqn:Hr; [| |congruence].
+        destruct (su_fuel f ub noOC e2) as [|r'|] eqn:Hr; [| |congruence].
         * apply logic_nil; [apply sc_and | rewrite <- Hr; apply IH; try assumption; congruence |].
           eapply SE_of_ST; [intros tr res Hev; exact (simplify_boolean_sound_all W Wok e1 tr res Hf1 Hev)|].
           apply IH; [apply simplify_boolean_flags; assumption | apply no_bad_sb; assumption | assumption].
-        * apply and_expr; [intros tr res Hev; exact (simplify_boolean_sound_all W Wok e1 tr res Hf1 Hev)|].
+        * apply chain_branch. apply and_expr; [intros tr res Hev; exact (simplify_boolean_sound_all W Wok e1 tr res Hf1 Hev)|].
           rewrite <- Hr. apply IH; try assumption; congruence.
       + (* BComma *)
         destruct (join_u_fuel _ _ Hf) as [F1 F2].
         eapply SE_two; try eassumption; [intros; apply EE_comma | apply IH; assumption | apply IH; assumption].
     - (* EIf *)
       cbn [flags_ok] in Hfl. destruct Hfl as [Hf1 [Hf2 Hf3]]. cbn [no_bad] in Hnb. destruct Hnb as [Hn1 [Hn2 Hn3]].
-      destruct (su_fuel f ub true e2) as [|y'|] eqn:Hy; destruct (su_fuel f ub true e3) as [|n'|] eqn:Hn; try congruence.
+      destruct (su_fuel f ub noOC e2) as [|y'|] eqn:Hy; destruct (su_fuel f ub noOC e3) as [|n'|] eqn:Hn; try congruence.
       + apply if_nil_nil; [rewrite <- Hy | rewrite <- Hn |]; apply IH; try assumption; congruence.
       + apply if_nil_expr; [rewrite <- Hy | rewrite <- Hn]; apply IH; try assumption; congruence.
       + apply if_expr_nil; [rewrite <- Hy | rewrite <- Hn]; apply IH; try assumption; congruence.
       + apply if_expr_expr; [rewrite <- Hy | rewrite <- Hn]; apply IH; try assumption; congruence.
     - (* ETemplate *)
       cbn [flags_ok] in Hfl. cbn [no_bad] in Hnb.
-      change (SE (ETemplate head parts) (tpl_go (su_fuel f ub true) parts UNil [])).
-      change (tpl_go (su_fuel f ub true) parts UNil [] <> UFuel) in Hf.
+      change (SE (ETemplate head parts) (tpl_go (su_fuel f ub noOC) parts UNil [])).
+      change (tpl_go (su_fuel f ub noOC) parts UNil [] <> UFuel) in Hf.
       intros tr Hn. rewrite EE_template in Hn |- *.
       rewrite tpl_sound; [reflexivity| |exact Hf|exact Hn].
       intros v tl Hin Hk Hfv. apply IH; [eapply flags_parts; eauto | eapply no_bad_parts; eauto | exact Hfv].
     - (* EArray *)
       cbn [flags_ok] in Hfl. cbn [no_bad] in Hnb.
       destruct (existsb (fun x => match x with ESpread _ => true | _ => false end) items) eqn:Hsp.
-      + change (keep_items_go (su_fuel f ub true) items [] <> UFuel) in Hf.
-        change (SE (EArray items) (keep_items_go (su_fuel f ub true) items [])).
-        destruct (keep_items (su_fuel f ub true) items []) as [K [E HK]]; [|exact Hf|].
+      + change (keep_items_go (su_fuel f ub noOC) items [] <> UFuel) in Hf.
+        change (SE (EArray items) (keep_items_go (su_fuel f ub noOC) items [])).
+        destruct (keep_items (su_fuel f ub noOC) items []) as [K [E HK]]; [|exact Hf|].
         * intros x Hin. pose proof (flags_all W _ Hfl x Hin) as Hfx. pose proof (no_bad_all _ Hnb x Hin) as Hnx.
-          destruct (su_fuel f ub true x) as [|x'|] eqn:Hx; [| |exact I].
+          destruct (su_fuel f ub noOC x) as [|x'|] eqn:Hx; [| |exact I].
           -- destruct x; try (rewrite <- Hx; apply keep_of_SE; [reflexivity|]; apply IH; try assumption; congruence).
              ++ intros t _. reflexivity.
              ++ destruct f; discriminate Hx.
@@ -1071,8 +1178,8 @@ Section SU.
              ++ destruct f; discriminate Hx.
              ++ assert (x' = ESpread x) by (destruct f; cbn in Hx; congruence). subst x'. intros t _. reflexivity.
         * rewrite E. cbn [rev app]. intros tr Hn. rewrite EU_expr, !EE_array in *. apply HK. exact Hn.
-      + change (items_go (su_fuel f ub true) items UNil <> UFuel) in Hf.
-        change (SE (EArray items) (items_go (su_fuel f ub true) items UNil)).
+      + change (items_go (su_fuel f ub noOC) items UNil <> UFuel) in Hf.
+        change (SE (EArray items) (items_go (su_fuel f ub noOC) items UNil)).
         intros tr Hn. rewrite EE_array in Hn |- *.
         rewrite fold_items; [reflexivity| |exact Hf|exact Hn].
         intros x Hin Hgx. pose proof (flags_all W _ Hfl x Hin) as Hfx. pose proof (no_bad_all _ Hnb x Hin) as Hnx.
@@ -1083,20 +1190,20 @@ Section SU.
     - (* EObject *)
       cbn [flags_ok] in Hfl. cbn [no_bad] in Hnb. destruct Hnb as [Hshape Hnb].
       destruct (existsb (fun p : Z * bool * expr * expr => let '(kind, _, _, _) := p in kind =? 1) props) eqn:Hsp.
-      + change (keep_props_go (su_fuel f ub true) props [] <> UFuel) in Hf.
-        change (SE (EObject props) (keep_props_go (su_fuel f ub true) props [])).
-        destruct (keep_props (su_fuel f ub true) props []) as [K [E HK]]; [|exact Hf|].
+      + change (keep_props_go (su_fuel f ub noOC) props [] <> UFuel) in Hf.
+        change (SE (EObject props) (keep_props_go (su_fuel f ub noOC) props [])).
+        destruct (keep_props (su_fuel f ub noOC) props []) as [K [E HK]]; [|exact Hf|].
         * intros [[[kind computed] key] value] Hin. cbn [snd prop_keep].
           pose proof (flags_props _ Hfl _ _ _ _ Hin) as Hfv. pose proof (no_bad_props _ Hnb _ _ _ _ Hin) as Hnv.
-          destruct (su_fuel f ub true value) as [|v'|] eqn:Hv; [| |exact I].
+          destruct (su_fuel f ub noOC value) as [|v'|] eqn:Hv; [| |exact I].
           -- intros t Hn. assert (S : SE value UNil) by (rewrite <- Hv; apply IH; try assumption; congruence).
              rewrite <- (S t Hn). reflexivity.
           -- intros t Hn. assert (S : SE value (UExpr v')) by (rewrite <- Hv; apply IH; try assumption; congruence).
              pose proof (S t Hn) as E0. rewrite EU_expr in E0. exact E0.
         * rewrite E. cbn [rev app]. intros tr Hn. rewrite EU_expr, !EE_object in *. apply HK. exact Hn.
       + destruct Hshape as [Hs|Hnc]; [congruence|].
-        change (props_go (su_fuel f ub true) props UNil <> UFuel) in Hf.
-        change (SE (EObject props) (props_go (su_fuel f ub true) props UNil)).
+        change (props_go (su_fuel f ub noOC) props UNil <> UFuel) in Hf.
+        change (SE (EObject props) (props_go (su_fuel f ub noOC) props UNil)).
         intros tr Hn. rewrite EE_object in Hn |- *.
         rewrite fold_props; [reflexivity| |exact Hf|exact Hn].
         intros kind computed key value Hin.
@@ -1116,14 +1223,14 @@ Section SU.
   Qed.
 
   (* final form: same trace, same kind of completion, same thrown value *)
-  Theorem simplify_unused_sound_partial_all : forall e tr res,
+  Theorem simplify_unused_sound_partial_all : forall noOC e tr res,
     flags_ok W e -> no_bad W e ->
-    simplify_unused ub true e <> UFuel ->
+    simplify_unused ub noOC e <> UFuel ->
     ev tr e = Some res ->
-    same_effects (Some res) (eval_unused W tr (simplify_unused ub true e)).
+    same_effects (Some res) (eval_unused W tr (simplify_unused ub noOC e)).
   Proof.
-    intros e tr res Hf Hn Hfu Hev. unfold simplify_unused in *.
-    pose proof (su_sound_fuel _ e Hf Hn Hfu tr) as S. unfold EE, EU in S. rewrite Hev in S.
+    intros noOC e tr res Hf Hn Hfu Hev. unfold simplify_unused in *.
+    pose proof (su_sound_fuel noOC _ e Hf Hn Hfu tr) as S. unfold EE, EU in S. rewrite Hev in S.
     apply same_effects_iff; [|discriminate].
     symmetry. apply S. destruct res as [t [v|z]]; discriminate.
   Qed.
